@@ -992,7 +992,15 @@ def cache_verified(flow):
                                 notes['cacheVerified'] = f'{name}: cached contents used before the digest check ({F.show(x.a)[:120]})'
                                 return False
                             verified += 1
-    # a method that hands the raw contents on must only ever be called directly (so that its callers were analysed with it)
+    # a method that hands the raw contents on must have been followed wherever it is called
+    raw_names = {m for m, u in passthrough}
+    for name in sorted(reach):
+        for q in flow.top(name):
+            for e, _c, _i, _e in walk(q.events):
+                if e.kind == 'call' and e.a[0] == 'call' and e.c != 'inlined' and e.a[2][0] == 'method' and e.a[2][2] in raw_names:
+                    notes['cacheVerified'] = f'{name}: call of {e.a[2][2]} (raw cache read) could not be followed'
+                    return False
+    # … and must only ever be called directly (so that its callers were analysed with it)
     for mname, uname in passthrough:
         if mname != uname:
             notes['cacheVerified'] = f'{mname}.{uname} returns unverified cached contents'
@@ -1051,6 +1059,12 @@ def _uses(x, uid):
         return 'use' if has(x.a) else None
     if x.kind in ('store', 'aug'):
         return 'use' if has(x.b if x.kind == 'store' else x.c) or has(x.a) else None
+    if x.kind == 'loop':
+        for q in x.a.paths:
+            for y, _c, _i, _e in walk(q.events):
+                if y.kind != 'cond' and _uses(y, uid) is not None:
+                    return 'use'
+        return None
     if x.kind == 'call' and x.a[0] == 'comp':
         return 'use' if has(x.a) else None
     if x.kind == 'call' and x.a[0] == 'call':
